@@ -50,7 +50,7 @@ def c15(ctx):
     n_target = 2500 if quick else 40000
     seen = set()
 
-    def mk(boundary, start, xdev, compr, lv_states, ign_level, ign_idx, odd):
+    def mk(boundary, start, xdev, compr, lv_states, ign_level, ign_idx, odd, link=None):
         levels = []
         for j in range(1, DEPTH + 1):
             st = lv_states[j - 1]
@@ -65,6 +65,9 @@ def c15(ctx):
             if odd and j == odd[0]:
                 files = dict(files)
                 files[odd[1]] = [odd[2]] if odd[2] != 'text' else ['text', 'FOO bar\n']
+            if link and j == link[0] and link[1] in files and files[link[1]][0] in ('text', 'gz'):
+                files = dict(files)
+                files[link[1]] = ['link', link[2], files[link[1]]]
             levels.append({'files': files})
         return {'boundary': boundary, 'levels': levels, 'start': start, 'xdev': xdev, 'compr': compr}
     combos = itertools.product(range(0, DEPTH + 1), range(1, DEPTH + 1), (True, False), (True, False))
@@ -77,7 +80,11 @@ def c15(ctx):
         odd = None
         if r.random() < 0.06:
             odd = (r.randint(1, DEPTH), r.choice(['Manifest', 'Manifest.gz']), r.choice(['dir', 'garbage-gz', 'text']))
-        key = (boundary, start, xdev, compr, lv_states, ign_level, ign_idx, odd)
+        link = None
+        if r.random() < 0.2:
+            # a Manifest that is a symbolic link to a file on another (or the same) filesystem
+            link = (r.randint(1, DEPTH), r.choice(['Manifest', 'Manifest', 'Manifest.gz']), r.choice(['foreign', 'foreign', 'same']))
+        key = (boundary, start, xdev, compr, lv_states, ign_level, ign_idx, odd, link)
         if key in seen:
             continue
         seen.add(key)
@@ -110,14 +117,17 @@ def c15(ctx):
             files = []
             for n, spec in c['levels'][j - 1]['files'].items():
                 compressed_name = n != 'Manifest'
+                fdev = res.get('fdevs', [{}] * DEPTH)[j - 1].get(n, devs[j])
+                if spec[0] == 'link':
+                    spec = spec[2]
                 if spec[0] == 'dir':
                     files.append([n, ['err', 'EISDIR']])
                 elif spec[0] == 'gz' or (spec[0] == 'text' and not compressed_name):
-                    files.append([n, ['text', devs[j], spec[1]]])
+                    files.append([n, ['text', fdev, spec[1]]])
                 elif compressed_name:
                     files.append([n, ['err', 'BadCompressedFile']])     # not gzip data under a .gz name
                 else:
-                    files.append([n, ['text', devs[j], 'this is not gzip data']])
+                    files.append([n, ['text', fdev, 'this is not gzip data']])
             levels.append([[devs[j], 0], files])
         levels.append([[devs[0], 0], []])
         for a in anc:
